@@ -150,6 +150,20 @@ def run(ctx):
             pname = site_names[fn].get(pname, pname)
         sites = _handler_sites(fn, pname)
         real = not fn.module.name.startswith('petl._controls')
+        # a handler that implements the policy but no longer catches every Exception
+        narrowed = []
+        for n0 in own_nodes(fn.node):
+            if isinstance(n0, ast.Try):
+                for h in n0.handlers:
+                    if _uses_name(h, pname) and not (handler_types(h) & {'Exception', 'BaseException'}):
+                        narrowed.append(h)
+        for h in narrowed:
+            rep.violated('R19.1', fn, 'except %s' % (norm(h.type)[:60] if h.type is not None else ''),
+                         'the handler that implements the failonerror policy catches only %s: a user callable that fails with any '
+                         'other exception raises out of the view also under failonerror=False and \'inline\'' % norm(h.type)[:80], h)
+        if narrowed and not sites:
+            n_sites += 1
+            continue
         if not sites:
             if real and _deferred_policy(rep, fn, kind, pname):
                 n_sites += 1
@@ -353,6 +367,20 @@ def r192(ctx, rep):
                                  'petl.config.failonerror' if want == 'CONFIG' else 'the argument'), init.node)
         if ok:
             rep.held('R19.2', init, 'self.failonerror', 'None -> config.failonerror, anything else unchanged', init.node)
+        # the value that replaces a failing cell is the caller's, whatever the policy argument looked like: the
+        # constructor stores `errorvalue` unchanged on every path
+        if 'errorvalue' in init.params:
+            stores = [x for x in own_nodes(init.node) if isinstance(x, ast.Assign) and any(norm(t) == 'self.errorvalue' for t in x.targets)]
+            if not stores:
+                rep.violated('R19.2', init, 'self.errorvalue', 'the constructor does not keep `errorvalue`', init.node)
+            for x in stores:
+                if norm(x.value) == 'errorvalue':
+                    rep.held('R19.2', init, 'self.errorvalue = errorvalue', 'stored unchanged', x)
+                else:
+                    rep.violated('R19.2', init, norm(x)[:70],
+                                 'the caller\'s errorvalue is not stored as it is (`%s`): when the policy comes from '
+                                 'petl.config.failonerror instead of the argument, a failing cell no longer gets the value the '
+                                 'caller asked for' % norm(x.value)[:60], x)
     # public functions
     for m in MODULES:
         for fn in ctx.functions([m]):
